@@ -1,4 +1,170 @@
-import CaresModel.Dns.Rfc
-/-! # C04 — decoded records say what the wire bytes say (theorems are being added) -/
+import CaresLemmas.DnsRfcMsg
+/-!
+# C04 — Decoded records say what the wire bytes say (RFC reference agreement)
+
+Property theorems only.  Helper lemmas: `CaresLemmas/DnsEscape.lean` (presentation names),
+`DnsRfcName.lean` (name layer), `DnsRfcFields.lean` (RDATA field layer), `DnsRfcRR.lean` (one RR),
+`DnsRfcMsg.lean` (header, question, sections, whole message).
+
+* `Cares.Dns.Rfc.decode` (`CaresModel/Dns/Rfc.lean`) is a declarative reference decoder written
+  from RFC 1035 / 2535 / 2782 / 3403 / 3596 / 6698 / 6891 / 7553 / 8659 / 9460 with a structure
+  different from the operational parser (names as label lists by structural recursion over strictly
+  earlier pointer targets, RR framing from RDLENGTH, RDATA formats from a table of the RFC diagrams,
+  header bits by division/modulo, OPT by the RFC 6891 field split).
+* `Cares.Dns.parse` (`Parse.lean`) is the operational model of `ares_dns_parse`, tied to the C code by
+  the `h_codec` correspondence stream.
+* "agrees": `Rfc.Msg.toRec m = some r` — the decoded message, presented the way the record API
+  presents things (escaped presentation names, RAW_RR for undecoded types, OPT's CLASS/TTL split,
+  SERVFAIL for RCODE values outside the enum, option lists as first-insertion-ordered maps), is
+  exactly the record.
+
+The theorems are full statements (no `_partial`): finding F8 (RAW_RR with empty RDATA reported as
+type 0) is repaired by a `fix:` commit and the model follows the repaired code.
+-/
 namespace Cares.C04
+open Cares.Dns Cares.Generated
+
+/-- every header field, question and RR field the parser reports is what the reference decoder
+    extracts from the same bytes -/
+def agrees (r : Rec) (m : Rfc.Msg) : Prop := m.toRec = some r
+
+/-- **Soundness.** Whenever the parser accepts a message (default flags), the reference decoder
+    decodes it, the record agrees with the decoded message in every field, and the message lies in
+    the explicitly written supported subset. -/
+theorem parse_sound (bs : Bytes) (r : Rec) (h : parse bs 0 = .ok r) :
+    ∃ m, Rfc.decode bs = some m ∧ agrees r m ∧ Rfc.supported bs m = true :=
+  parse_sound_thm bs r h
+
+/-- **Completeness.** Whenever the reference decoder finds the message well-formed and it is within
+    the supported subset (`Rfc.supported`: a decidable predicate written out in `Rfc.lean`: at most
+    65535 octets, known opcode, exactly one question of class IN/CH/HS/NONE/ANY, RR classes
+    IN/CH/HS/NONE (ANY only for SIG), no RR of type `*`, typed fields fitting their RDATA,
+    character-strings of HINFO/NAPTR/CAA and the URI target printable ASCII, SIG/TLSA/CAA payloads
+    non-empty), the parser accepts it — and reports exactly that message. -/
+theorem parse_complete (bs : Bytes) (m : Rfc.Msg) (hd : Rfc.decode bs = some m)
+    (hs : Rfc.supported bs m = true) : ∃ r, parse bs 0 = .ok r ∧ agrees r m :=
+  parse_complete_thm bs m hd hs
+
+/-- both directions together: acceptance by the parser is *equivalent* to "decodes and is supported",
+    and the record is determined by the reference decoder -/
+theorem parse_iff_decode (bs : Bytes) (r : Rec) :
+    parse bs 0 = .ok r ↔ ∃ m, Rfc.decode bs = some m ∧ Rfc.supported bs m = true ∧ agrees r m := by
+  constructor
+  · intro h
+    obtain ⟨m, h1, h2, h3⟩ := parse_sound bs r h
+    exact ⟨m, h1, h3, h2⟩
+  · rintro ⟨m, h1, h2, h3⟩
+    obtain ⟨r', h4, h5⟩ := parse_complete bs m h1 h2
+    have : r' = r := by
+      unfold agrees at h3 h5
+      rw [h3] at h5
+      injection h5 with h5
+      exact h5.symm
+    rw [← this]
+    exact h4
+
+/-- **Name layer**: `ares_dns_name_parse` accepts exactly the names the RFC 1035 §4.1.4 reference
+    decodes (labels ending in the zero octet or in a pointer to a strictly earlier name), returns the
+    presentation form of exactly those labels, and leaves the cursor right after the wire form. -/
+theorem name_agrees (bs : Bytes) (p : Nat) (hp : p ≤ bs.size) :
+    parseName bs false p = match Rfc.name bs p with
+      | some (labels, next) => .ok (escapeName labels) next
+      | none => .err .ebadname :=
+  parseName_eq_rfc bs p hp
+
+/-! ## presentation-format names -/
+
+/-- **Escaping round-trips**: reading back the presentation form (`ares_split_dns_name` with its
+    `\DDD` / `\c` escapes) of any list of non-empty labels gives exactly those label bytes. -/
+theorem escape_roundtrip (labels : List BStr) (hne : ∀ l ∈ labels, l ≠ []) :
+    unescapeName false (escapeName labels) = .ok labels :=
+  unescape_escapeName labels hne
+
+/-- the statement without "labels are non-empty" is false (an empty label has no presentation form
+    of its own) — kernel-checked; DNS labels are non-empty by definition (length octet 1..63) -/
+theorem escape_roundtrip_needs_nonempty : ¬ (unescapeName false (escapeName [[]]) = .ok [[]]) := by
+  unfold unescapeName
+  rw [escapeName_single]
+  simp only [escapeLabel, List.flatMap_nil]
+  rw [splitLoop]
+  simp [Except.map, splitFinish]
+
+/-- with the length validation of `ares_split_dns_name` (labels 1..63 octets, at most 255 in all) -/
+theorem split_escape (labels : List BStr) (hok : labelsLengthOk labels = true) :
+    splitDnsName false (escapeName labels) = .ok labels := by
+  have hne : ∀ l ∈ labels, l ≠ [] := by
+    intro l hl h0
+    simp only [labelsLengthOk, Bool.and_eq_true, List.all_eq_true, decide_eq_true_eq] at hok
+    have := (hok.1 l hl).1
+    rw [h0] at this
+    simp at this
+  unfold splitDnsName
+  rw [escape_roundtrip labels hne]
+  simp only [hok, ↓reduceIte]
+
+/-! ## table obligations (regenerated tables; kernel evaluation) -/
+
+/-- every generated field script is compatible with the RFC format of its type -/
+theorem scripts_match_rfc_formats : scriptsCompatible = true := scripts_compatible
+
+/-- the escape rule over all 256 bytes: plain / `\c` / `\DDD`, and it reads back as the byte -/
+theorem escape_table_ok : ∀ n, n < 256 → byteShapeOk n.toUInt8 = true := byteShape_all
+
+/-! ## non-vacuity -/
+
+/-- header + question `. IN A` -/
+def msgMin : Bytes := #[0x12, 0x34, 0x81, 0x80, 0, 1, 0, 0, 0, 0, 0, 0, 0, 0, 1, 0, 1]
+
+theorem name_msgMin : Rfc.name msgMin 12 = some ([], 13) := by
+  rw [Rfc.name, Rfc.labelRun]
+  decide
+
+/-- the hypotheses of `parse_complete` are satisfiable: this message decodes and is supported -/
+example : ∃ m, Rfc.decode msgMin = some m ∧ Rfc.supported msgMin m = true := by
+  have h12 : 12 ≤ msgMin.size := by decide
+  have hsup : Rfc.supported msgMin (refMsg msgMin (by decide) [⟨[], 1, 1⟩] [] [] []) = true := by decide
+  have hq : Rfc.decodeQuestion msgMin 12 = some (⟨[], 1, 1⟩, 17) := by
+    unfold Rfc.decodeQuestion
+    rw [name_msgMin]
+    decide
+  refine ⟨refMsg msgMin h12 [⟨[], 1, 1⟩] [] [] [], ?_, hsup⟩
+  rw [decode_eq h12]
+  have : be16At msgMin 4 (by decide) = 1 := by decide
+  rw [this]
+  simp only [Rfc.decodeQuestions, hq]
+  have h6 : be16At msgMin 6 (by decide) = 0 := by decide
+  have h8 : be16At msgMin 8 (by decide) = 0 := by decide
+  have h10 : be16At msgMin 10 (by decide) = 0 := by decide
+  rw [h6, h8, h10]
+  rfl
+
+/-- … and so is the hypothesis of `parse_sound` (by completeness) -/
+example : ∃ r, parse msgMin 0 = .ok r := by
+  have h12 : 12 ≤ msgMin.size := by decide
+  have hsup : Rfc.supported msgMin (refMsg msgMin (by decide) [⟨[], 1, 1⟩] [] [] []) = true := by decide
+  have hq : Rfc.decodeQuestion msgMin 12 = some (⟨[], 1, 1⟩, 17) := by
+    unfold Rfc.decodeQuestion
+    rw [name_msgMin]
+    decide
+  have hd : Rfc.decode msgMin = some (refMsg msgMin h12 [⟨[], 1, 1⟩] [] [] []) := by
+    rw [decode_eq h12]
+    have : be16At msgMin 4 (by decide) = 1 := by decide
+    rw [this]
+    simp only [Rfc.decodeQuestions, hq]
+    have h6 : be16At msgMin 6 (by decide) = 0 := by decide
+    have h8 : be16At msgMin 8 (by decide) = 0 := by decide
+    have h10 : be16At msgMin 10 (by decide) = 0 := by decide
+    rw [h6, h8, h10]
+    rfl
+  obtain ⟨r, h, _⟩ := parse_complete msgMin _ hd hsup
+  exact ⟨r, h⟩
+
+/-- the reference is not trivially permissive: a pointer to itself is not a name -/
+example : Rfc.name #[0xc0, 0] 0 = none := by
+  rw [Rfc.name, Rfc.labelRun]
+  decide
+
+/-- escaping really escapes: the label `a.b\` + byte 7 -/
+example : escapeName [[97, 46, 98, 92, 7]] = [97, 92, 46, 98, 92, 92, 92, 48, 48, 55] := by decide
+
 end Cares.C04
